@@ -1,9 +1,17 @@
-"""C09 — Lock: correspondence of prims/Lock.v with anyio.Lock on SchedLoop, plus history monitors."""
+"""C09 — Lock: correspondence of prims/Lock.v with anyio.Lock on SchedLoop, plus history monitors.
+Tie T: on every run tools/translate_lock.py regenerates coq/prims/LockGen.v from class Lock in the source under
+test; LockGenEq.v (in the cone of props/C09.v) proves that interpreting the regenerated segments is Lock.step.  A
+refusal of the translator or a failing equality proof is a broken tie: reported with a concrete failing input if the
+correspondence run / the monitors find one, otherwise as `no-failing-input-found` naming the theorem and segment."""
 
 from __future__ import annotations
 
 import itertools
+import os
 import random
+import re
+import subprocess
+import sys
 from asyncio import CancelledError
 
 import core
@@ -288,12 +296,62 @@ def exhaustive_cases(ntasks: int, depth: int, fast: bool):
     return results
 
 
+LOCKGEN = core.COQ / "prims" / "LockGen.v"
+TIE_FILES = ("prims/LockGen.v", "prims/LockGenEq.v")
+
+
+def run_translator():
+    """Regenerate LockGen.v from core.REPO (fail closed: a refusal leaves a file that does not compile)."""
+    env = dict(os.environ, VERIF_REPO=str(core.REPO))
+    with core.locked("lockgen"):
+        p = subprocess.run([sys.executable, str(core.VERIF / "tools" / "translate_lock.py")], env=env,
+                           stdout=subprocess.PIPE, stderr=subprocess.STDOUT, text=True, timeout=120)
+        text = LOCKGEN.read_text() if LOCKGEN.exists() else ""
+    return p.returncode, p.stdout.strip(), text
+
+
+def failing_obligation(where: str):
+    """'prims/LockGenEq.v:123' -> (name of the enclosing Theorem/Lemma, segment it speaks about)."""
+    m = re.match(r"(.+\.v):(\d+)$", where or "")
+    if not m or not (core.COQ / m.group(1)).exists():
+        return None, None
+    lines = (core.COQ / m.group(1)).read_text().splitlines()[:int(m.group(2))]
+    for ln in reversed(lines):
+        d = re.match(r"\s*(?:Theorem|Lemma|Example|Corollary|Definition)\s+([A-Za-z0-9_']+)", ln)
+        if d:
+            name = d.group(1)
+            seg = re.sub(r"^(C09_)?tie_|_spec$", "", name) if "tie_" in name else None
+            if name in ("poploop_handoff", "exec_release", "exec_call_release"):
+                seg = "release_entry / release_loop_body"
+            return name, seg
+    return None, None
+
+
 def check(tier: str) -> int:
     rep = core.Report("C09", tier)
     rep.assumptions = core.TRUSTED_BASE_COMMON + [
-        "model prims/Lock.v hand-written from _asyncio.py:1878-1959; cancellation modelled as native Task.cancel() on blocked tasks (superset of what AnyIO scope delivery does to a blocked task)",
+        "model prims/Lock.v hand-written from class Lock in _asyncio.py; cancellation modelled as native Task.cancel() on blocked tasks (superset of what AnyIO scope delivery does to a blocked task)",
+        "tie T: tools/translate_lock.py (python ast -> coq/prims/LockGen.v, fail-closed grammar in its docstring) regenerates the segments of Lock.acquire/acquire_nowait/release/locked on every run and prims/LockGenEq.v proves their interpretation (prims/LockImp.v: exec) equal to Lock.step for all states and tasks. Trusted in it: the translator's mapping of Python constructs to LockImp statements, the cutting of acquire() at its awaits into entry/continuation segments, CPython's await/exception semantics at the cut points (which continuation runs, locals persist: LockImp.gstep), and the reading of checkpoint_if_cancelled() at the start of an uncontended acquire as a no-op when the caller's scope is not cancelled (C08 covers the cancelled case). The translator is not the only tie: the same model is co-simulated against the running code below",
     ]
-    proofs_ok = core.proof_stage(rep, "props/C09.v")
+    # tie T: regenerate the segments from the source under test, then rebuild the cone (LockGen, LockGenEq, props/C09).
+    # The retry only matters when another check regenerated LockGen.v from a different tree in between.
+    for _attempt in range(3):
+        t_rc, t_out, gen_text = run_translator()
+        proofs_ok = core.proof_stage(rep, "props/C09.v")
+        if (LOCKGEN.read_text() if LOCKGEN.exists() else "") == gen_text:
+            break
+    segs = dict(re.findall(r"^  (\w+) := (.*)$", t_out, re.M))
+    m_at = re.search(r"atoms=(\{.*?\})", t_out)
+    tie_T = {
+        "translator": "tools/translate_lock.py (python ast -> coq/prims/LockGen.v, fail closed)",
+        "translator_ok": t_rc == 0,
+        "translator_output": t_out.splitlines()[0][-600:] if t_out else "",
+        "segments": segs,
+        "atoms_per_method": m_at.group(1) if m_at else None,
+        "equality_theorems": "LockGenEq.v: tie_acquire_entry, tie_acquire_nowait, tie_release, tie_acquire_yield_resumed, tie_acquire_yield_cancelled, tie_acquire_wait_resumed, tie_acquire_wait_cancelled, tie_locked, gstep_eq_step (+ *_spec forms, props C09_tie_*)",
+        "equality_proved": bool(proofs_ok),
+    }
+    rep.coverage["tie_T"] = tie_T
     exe = core.build_driver("lock", "Lock")
 
     rng = random.Random(core.seed())
@@ -344,7 +402,16 @@ def check(tier: str) -> int:
                             "ops_readable": [(OPN[r.ops[i]], r.ops[i + 1]) for i in range(0, len(r.ops), 2)]})
     tie_broken = []
     if not proofs_ok:
-        tie_broken.append("proof obligation: " + str(rep.coverage.get("proof_failure", {}).get("where")))
+        where = str(rep.coverage.get("proof_failure", {}).get("where"))
+        tie_broken.append("proof obligation: " + where)
+        if t_rc != 0:
+            tie_T["broken"] = "translator refused"
+            tie_broken.append("tie T: class Lock is outside the translator's grammar: " + tie_T["translator_output"])
+        elif where.split(":")[0] in TIE_FILES:
+            thm, seg = failing_obligation(where)
+            tie_T.update({"broken": "equality proof", "failing_theorem": thm, "segment": seg, "where": where})
+            tie_broken.append(f"tie T: the regenerated code no longer equals the model: {thm} ({where}) fails"
+                              + (f", segment {seg}" if seg else ""))
     if disagreements:
         tie_broken.append("correspondence Lock.run_case vs anyio.Lock")
     if rejected:
@@ -353,7 +420,7 @@ def check(tier: str) -> int:
         tie_broken.append("vm_compute sample disagrees with extracted model")
     if tie_broken and not monitor_hits:
         d = min(disagreements, key=lambda d: len(d["ops"])) if disagreements else None
-        rep.violation("; ".join(tie_broken), {"kind": "tie", "broken": tie_broken, "case": d}, no_input=True)
+        rep.violation("; ".join(tie_broken), {"kind": "tie", "broken": tie_broken, "case": d, "tie_T": tie_T}, no_input=True)
 
     flags = {}
     for r in runs:
@@ -392,6 +459,15 @@ def check(tier: str) -> int:
 def replay(path: str) -> int:
     import json
     d = json.load(open(path))
+    if d.get("kind") == "tie" and not d.get("case"):
+        # a broken tie without a failing input: re-run the translator and the proof cone, report what fails now
+        t_rc, t_out, _ = run_translator()
+        ok, log = core.coq_make(["props/C09.vo"])
+        print("\n".join(t_out.splitlines()[:1]))
+        print("BROKEN (recorded):", "; ".join(d.get("broken", [])))
+        print("proof cone now:", "ok" if ok else "FAILS " + " ".join(re.findall(r'File "\./([^"]+)", line (\d+)', log)[:1] and
+                                                                   ["%s:%s" % re.findall(r'File "\./([^"]+)", line (\d+)', log)[0]]))
+        return 0 if (ok and t_rc == 0) else 1
     c = d.get("case") or d
     r = run_script(bool(c.get("fast")), c.get("ntasks", 5), c["ops"])
     for i in range(0, len(r.ops), 2):
